@@ -178,7 +178,9 @@ func (g *Gen) fieldType(depth int) fieldChoice {
 		return fieldChoice{t, ""}
 	case 7, 8, 9:
 		t := g.sliceType(depth, true)
-		if g.r.P(20) {
+		// (a tag option on a plain []byte silently selects the packed-varint
+		// wrapper instead of BytesCodec: outside the documented format, not generated)
+		if g.r.P(20) && !t.isBytes() {
 			g.count("opt.proto-slice")
 			return fieldChoice{t, "proto"}
 		}
@@ -260,7 +262,12 @@ func (g *Gen) structType(depth int) *TyDef {
 func (g *Gen) topType(depth int) *TyDef {
 	switch g.r.Intn(10) {
 	case 0:
-		return g.valueType(depth)
+		// (a top-level pointer type is known finding F01: nil reads back as a pointer to zero)
+		t := g.valueType(depth)
+		for t.K == "ptr" {
+			t = t.Elem
+		}
+		return t
 	case 1:
 		if depth > 0 {
 			return Map(g.keyType(depth-1), g.mapValueType(depth-1))
@@ -369,14 +376,6 @@ func (g *Gen) Value(t *TyDef, budget *int) *Val {
 	case "named":
 		if t.Elem.K == "time" {
 			return &Val{K: "r"}
-		}
-		if t.Elem.isBytes() {
-			// defined type over []byte: built as a packed slice of uint8
-			out := &Val{K: "l"}
-			for _, b := range g.strBytes() {
-				out.L = append(out.L, &Val{K: "u", U: uint64(b)})
-			}
-			return out
 		}
 		return g.Value(t.Elem, budget)
 	case "bool":
@@ -513,9 +512,6 @@ func zeroVal(t *TyDef) *Val {
 	case "named":
 		if t.Elem.K == "time" {
 			return &Val{K: "r"}
-		}
-		if t.Elem.isBytes() {
-			return &Val{K: "l"}
 		}
 		return zeroVal(t.Elem)
 	case "bool":
